@@ -243,6 +243,7 @@ def _build(case):
   X.decorate(spec, case["sensor_seed"])
   excl = [k for k in ("tactile",) if f"kind:{k}" in KNOWN_EXCLUDED]
   X.add_sensors(spec, case["sensor_seed"], case["nsensor"], emphasis=case["emphasis"], refp=case["refp"], exclude_kinds=excl)
+  X.add_frame_matrix(spec, case["sensor_seed"], 3)  # systematic walk through (frame sensor kind x objtype x reftype)
   return spec
 
 
